@@ -175,6 +175,33 @@ fn eval_det(t: &mut Toks) -> R<String> {
                 h.mpoly(&r)
             })
         }
+        "selfop" => {
+            // the SAME object as both operands against an equal-valued copy as second operand: the result is a
+            // function of the operand values, not of whether the two references alias
+            let op = t.tok()?.to_string();
+            let a = mpoly_in(t)?;
+            let run = |h: &mut Fnv, aliased: bool| {
+                let ac = a.clone();
+                let b: &MultiPolygon<f64> = if aliased { &a } else { &ac };
+                h.mpoly(&match op.as_str() {
+                    "intersection" => a.intersection(b),
+                    "union" => a.union(b),
+                    "difference" => a.difference(b),
+                    _ => a.xor(b),
+                });
+                for (p, q) in a.0.iter().zip(b.0.iter()) {
+                    h.mpoly(&match op.as_str() {
+                        "intersection" => p.intersection(q),
+                        "union" => p.union(q),
+                        "difference" => p.difference(q),
+                        _ => p.xor(q),
+                    });
+                }
+            };
+            let x = once(&|h| run(h, true));
+            let y = once(&|h| run(h, false));
+            format!("{} {}", x, y)
+        }
         "uunion" => {
             let k = t.usize()?;
             let mut v = vec![];
@@ -741,6 +768,27 @@ fn gen_case(rng: &mut Rng, index: u64) -> String {
                 }
             }
             format!("C20.stitch {}", tris_out(&ts))
+        }
+        7 | 8 if rng.chance(1, 4) => {
+            // one operand used twice; ring start vertices rotated away from wherever the overlay would start
+            let mut a = gen_multipolygon(rng, k);
+            for p in a.0.iter_mut() {
+                let r = rng.below(4) as usize;
+                let rot = |l: &mut LineString<f64>| {
+                    let n = l.0.len();
+                    if n > 3 && l.0[0] == l.0[n - 1] {
+                        l.0.pop();
+                        let m = l.0.len();
+                        l.0.rotate_left(r % m);
+                        let first = l.0[0];
+                        l.0.push(first);
+                    }
+                };
+                p.exterior_mut(|e| rot(e));
+                p.interiors_mut(|hs| hs.iter_mut().for_each(|h| rot(h)));
+            }
+            let op = *rng.pick(&["intersection", "union", "union", "difference", "xor"]);
+            format!("C20.det selfop {} {}", op, mp_str(&a))
         }
         7 | 8 => {
             let a = gen_multipolygon(rng, k);
